@@ -462,6 +462,18 @@ def suite_gen_alignment(rng, tier, shard, nshards):
                 continue                                  # the `validators` part's definition: suite gen_validators (C14)
             if c.op.split(".", 1)[1] in avail:
                 yield _ga_retarget(c)
+    # the corner the streams above do not reach: all timestamps 0, where `duration <= 0` is the ONLY guard between
+    # `duration = 0` and 0/0 (any positive timestamp already exceeds a non-positive duration) — asked of the hand model AND of
+    # the generated definition
+    from fractions import Fraction as _F
+    for n in (1, 2, 3):
+        z = [_F(0)] * n
+        for d in (_F(0), _F(-1), _F(1, 32), None):
+            c = AS.case("alignment.percentage_correct_segments", [z, list(z), d], "X all-zero timestamps duration=%s" % d,
+                        nontrivial=False)
+            yield c
+            if "percentage_correct_segments" in avail:
+                yield _ga_retarget(c)
     for c in _ga_prim_cases(rng, tier):
         yield c
 
